@@ -73,11 +73,19 @@ def deployInsts (n : String) : List R → M R Unit
     instMsg n s.next r ok
     deployInsts n rest
 
+/-- a node that cannot be prepared is entered into the rollback map even when nothing was planned on
+it (Go: `syncRollbackMap.Set(nodename, utils.Range(0))`), which makes the then-step fail and the
+rollback visit the node with nothing to give back -/
+def noteNodeFailed (n : String) (rs : List R) : M R Unit :=
+  if rs.isEmpty then noteFailed n ResAlg.zero else pure ()
+
 /-- `doDeployWorkloadsOnNode` -/
 def deployNode (n : String) (rs : List R) : M R Unit := do
   let ok ← attempt (readStep "storeGetNode" n)       -- doGetAndPrepareNode
   if ok then deployInsts n rs
-  else forEach rs (fun r => do noteFailed n r; emit ⟨"", 0, false, none⟩)   -- anonymous failure messages
+  else do
+    noteNodeFailed n rs
+    forEach rs (fun r => do noteFailed n r; emit ⟨"", 0, false, none⟩)   -- anonymous failure messages
 
 /-- then step: `doDeployWorkloads`; fails iff some instance failed -/
 def createThen (a : CreateArgs R) : M R Unit := do
